@@ -17,6 +17,7 @@
 #include <errno.h>
 
 long g_A; int g_i_hold, g_env_holds;
+int g_no_busy_wait, g_saw_held;                 /* see myth_verif_rd */
 int g_seat;                                     /* seats I may still reserve (fewer than 2^60 simultaneous waiters, I am one) */
 int g_acq, g_rel, g_take, g_clear;              /* my successful steps, by kind (each at most once per call) */
 int g_pending;                                  /* I reserved a seat and have not blocked on it yet */
@@ -41,6 +42,7 @@ void myth_verif_env_step(volatile long * p)
 static inline _Bool myth_verif_cas_long(volatile long * p, long o, long n) {
   if (p != verif_word()) return __sync_bool_compare_and_swap(p, o, n);
   myth_verif_env_step(p);
+  g_saw_held = 0;
   _Bool r = __sync_bool_compare_and_swap(p, o, n);
   if (r) {
     if      (!g_i_hold && !(o & 1) && n == o + 1 && g_acq == 0 && !g_pending)  { g_i_hold = 1; g_acq = 1; }            /* acquire  */
@@ -66,8 +68,16 @@ static inline long myth_verif_fetch_sub_long(volatile long * p, long d) {
                                 : (_Bool)__sync_val_compare_and_swap((volatile int *)(p), (int)(long)(o), (int)(long)(n)) == (int)(long)(o))
 #define __sync_fetch_and_sub(p,d) myth_verif_fetch_sub_long((volatile long *)(p), (long)(d))
 /* R4 read hook */
+/* "threads blocked on a mutex do not occupy a worker": in myth_mutex_lock a locker that has read the word and found the
+   mutex held goes on to announce itself (a CAS; on success it blocks, on failure the word has moved) -- it does not read
+   the word again without having tried: that would be busy waiting on the worker.  Checked in the lock job only
+   (g_no_busy_wait): trylock / timedlock poll by design, with a yield between polls. */
 static inline void myth_verif_rd(volatile void * p) {
-  if (p == (volatile void *)verif_word()) { myth_verif_env_step((volatile long *)p); g_last_read = g_A; }
+  if (p == (volatile void *)verif_word()) {
+    myth_verif_env_step((volatile long *)p); g_last_read = g_A;
+    __CPROVER_assert(!g_no_busy_wait || !g_saw_held, "lock: a locker that found the mutex held announces itself and blocks; it does not poll the word again (no busy waiting on the worker)");
+    g_saw_held = (!g_i_hold && (g_A & 1)) ? 1 : 0;
+  }
 }
 
 #include "myth_sync_func.h"
@@ -132,7 +142,7 @@ static void setup(int i_hold, int seat) {
   g_A = nondet_long(); g_env_holds = nondet_int(); g_i_hold = i_hold; g_seat = seat;
   M.state = g_A;
   g_acq = g_rel = g_take = g_clear = 0; g_pending = 0; g_ann_ever = g_block_ever = 0;
-  g_wake_calls = g_exit_calls = g_yield_ever = 0; g_last_read = -1;
+  g_wake_calls = g_exit_calls = g_yield_ever = 0; g_last_read = -1; g_no_busy_wait = 0; g_saw_held = 0;
   __CPROVER_assume(MUTEX_INV);
 }
 
@@ -161,6 +171,7 @@ void h_trylock(void) {
 
 void h_lock(void) {
   setup(0, 1);
+  g_no_busy_wait = 1; g_saw_held = 0;
   int r = myth_mutex_lock_body(&M);
   __CPROVER_assert(r == 0, "lock: returns 0");
   __CPROVER_assert(g_i_hold == 1 && g_acq == 1, "lock: returns only as the holder, after exactly one acquire step");
